@@ -25,7 +25,7 @@ def shard_of(case):
     return "shard%02d" % (case.cid % NSHARDS)
 
 
-def write_workspace(root, cases, feature, shard_fn=None, order_rng=None):
+def write_workspace(root, cases, feature, shard_fn=None, order_rng=None, as_dependencies=False):
     if os.path.exists(root):
         shutil.rmtree(root)
     os.makedirs(root)
@@ -55,8 +55,20 @@ def write_workspace(root, cases, feature, shard_fn=None, order_rng=None):
             lines.append("}")
         with open(os.path.join(d, "src", "lib.rs"), "w") as fh:
             fh.write("\n".join(lines) + "\n")
+    members = sorted(shards)
+    if as_dependencies:
+        # one more crate that depends on every shard: building only that one makes the shards *dependencies* (for cargo: not primary
+        # packages, other environment variables), which an expansion must not depend on either
+        d = os.path.join(root, "zztop")
+        os.makedirs(os.path.join(d, "src"))
+        with open(os.path.join(d, "Cargo.toml"), "w") as fh:
+            fh.write('[package]\nname = "zztop"\nversion = "0.0.0"\nedition = "2021"\n\n[lib]\npath = "src/lib.rs"\n\n[dependencies]\n' +
+                     "".join('%s = { path = "../%s" }\n' % (m, m) for m in members))
+        with open(os.path.join(d, "src", "lib.rs"), "w") as fh:
+            fh.write("")
+        members = members + ["zztop"]
     with open(os.path.join(root, "Cargo.toml"), "w") as fh:
-        fh.write("[workspace]\nresolver = \"2\"\nmembers = [%s]\n" % ", ".join('"%s"' % s for s in sorted(shards)))
+        fh.write("[workspace]\nresolver = \"2\"\nmembers = [%s]\n" % ", ".join('"%s"' % s for s in members))
     shutil.copy(os.path.join(REPO, "Cargo.lock"), os.path.join(root, "Cargo.lock"))
     return index
 
@@ -85,7 +97,7 @@ def run_group(cmd, cwd, env, timeout):
         return None, out or "", time.time() - t0
 
 
-def run_workspace(root, feature, tag, release=False, timeout=3000):
+def run_workspace(root, feature, tag, release=False, timeout=3000, package=None):
     """cargo check with the recorder on; returns list of dump files.
     release: build the macro under the release profile (no debug assertions, no overflow checks in the macro crate)"""
     prefix = os.path.join(root, "dump")
@@ -94,8 +106,8 @@ def run_workspace(root, feature, tag, release=False, timeout=3000):
     target = os.path.join(WORK, "target-corpus-%s" % ("on" if feature else "off"))
     env = {"RUSTFLAGS": "--cfg %s --cap-lints allow" % GUARD, "ENTRAIT_VERIF_DUMP": prefix, "CARGO_TARGET_DIR": target,
            "CARGO_INCREMENTAL": "0"}
-    rc, out, dt = run_group(["cargo", "check", "--offline", "--workspace", "--keep-going", "-j", "16", "--message-format=short"] +
-                            (["--release"] if release else []), root, env, timeout)
+    rc, out, dt = run_group(["cargo", "check", "--offline"] + (["-p", package] if package else ["--workspace"]) +
+                            ["--keep-going", "-j", "16", "--message-format=short"] + (["--release"] if release else []), root, env, timeout)
     log("[corpus] cargo check (%s, feature=%s%s): rc=%s %.1fs" % (tag, feature, ", release profile" if release else "", rc, dt))
     if "could not compile `entrait_macros`" in out or "could not compile `entrait`" in out or "error: failed to" in out:
         log(out[-3000:])
@@ -182,7 +194,7 @@ def attribute(rows, index, cases):
     return attributed, unattributed, missing
 
 
-def run_cases(cases, name, root=None, shard_fn=None, order_rng=None, features=(False, True), release=False):
+def run_cases(cases, name, root=None, shard_fn=None, order_rng=None, features=(False, True), release=False, as_dependencies=False):
     """cases through the real macro in both feature settings; returns the result dict"""
     root = root or os.path.join(WORK, "corpus", name)
     os.makedirs(root, exist_ok=True)
@@ -190,9 +202,10 @@ def run_cases(cases, name, root=None, shard_fn=None, order_rng=None, features=(F
     for feature in features:
         fname = "on" if feature else "off"
         ws = os.path.join(root, fname)
-        index = write_workspace(ws, cases, feature, shard_fn, order_rng)
+        index = write_workspace(ws, cases, feature, shard_fn, order_rng, as_dependencies)
         # generous: a quick corpus takes well under a minute, a thorough one about ten; a macro that does not terminate takes forever
-        dumps, out, panics = run_workspace(ws, feature, name, release, timeout=240 + int(0.03 * len(cases)))
+        dumps, out, panics = run_workspace(ws, feature, name, release, timeout=240 + int(0.03 * len(cases)),
+                                           package="zztop" if as_dependencies else None)
         rows = model_rows(dumps, ws)
         attributed, unattributed, missing = attribute(rows, index, cases)
         result["rows"][fname] = attributed
@@ -255,7 +268,10 @@ def rerun_shuffled(res, seed, runs=1):
                 return RISKY[c.family]
             return "shard%02d" % ((c.cid * 7 + salt) % (NSHARDS - 1 - k % 3))
         feats = (False,) if k == 0 else (True,) if k == 1 else (False, True)
-        r = run_cases(cases, res["key"] + "-rerun", os.path.join(root, "rerun-ws"), shard_fn, rng, feats, release=(k == 0))
+        # first re-run: release profile, and the corpus crates built as dependencies of another crate instead of as the packages
+        # cargo was asked for (CARGO_PRIMARY_PACKAGE and friends differ)
+        r = run_cases(cases, res["key"] + "-rerun", os.path.join(root, "rerun-ws"), shard_fn, rng, feats, release=(k == 0),
+                      as_dependencies=(k == 0))
         for f, rows in r["rows"].items():
             out.setdefault(f, []).extend(rows)
     shutil.rmtree(os.path.join(root, "rerun-ws"), ignore_errors=True)
